@@ -345,8 +345,24 @@ def qciOp {T : Type} [Cmp T] [Codec T] (args : List String) : Option OpEval := d
         | _ => ["malformed"]
       { model := joinBar ([ci, srt, m16, m1024, idx] ++ List.replicate nperm ci), prop := cs } }
 
+/-- `index n n p => Stats::new(n).index(p)` -/
+def indexOp (args : List String) : Option OpEval := do
+  let (n, r) ← pNat args
+  let (p, _) ← pF64 r
+  pure {
+    run := fun _ impl =>
+      let o : Outcome (Err Float) Nat := Quantile.index n p
+      let cs := match impl with
+        | [["ok", i]] =>
+          (match parseNat? i with
+           | some i => if i < n then [] else ["rank-out-of-range"]
+           | none => ["malformed"])
+        | _ => []
+      { model := tokOutcome (fun i => [Tok.s (toString i)]) o, prop := cs } }
+
 def propOp (op ty : String) (args : List String) : Option OpEval :=
   match op, ty with
+  | "index", "n" => indexOp args
   | "wilson", "p" => wilsonOp args
   | "frontends", "p" => frontendsOp args
   | "ratio", "p" => ratioOp args
